@@ -2,7 +2,7 @@
 (***************************************************************************)
 (* C08 -- enum values are exactly the accepted set.                          *)
 (* Units: every ordered list of up to 3 distinct atoms out of                *)
-(* {"a", "bé", 1, 2, 1.5, true, false, null} that conforms to the declared    *)
+(* {"a", "bé% a", 1, 2, 1.5, true, false, null} that conforms to the declared    *)
 (* type (absent, string, integer, number, boolean, null, [string,null]) x     *)
 (* use (required, optional, via $ref, array items, optional with default).    *)
 (* Documents: all 8 atoms, 4 non-members of different JSON types, absent.      *)
@@ -14,7 +14,7 @@ CONSTANTS UnitsFile, Devs
 VARIABLES use, ty, lst       \* lst = <<0>> while unset
 vars == <<use, ty, lst>>
 
-Atoms == << JStr(<<"a">>), JStr(<<"b", "e2">>), JNum(4), JNum(8), JNum(6), JBool(TRUE), JBool(FALSE), JNull >>
+Atoms == << JStr(<<"a">>), JStr(<<"b", "e2", "pc", "sp", "a">>), JNum(4), JNum(8), JNum(6), JBool(TRUE), JBool(FALSE), JNull >>
 NonMembers == << JStr(<<"a", "b">>), JNum(12), JArr(<<>>), JObj(<<>>) >>
 Values == Atoms \o NonMembers
 
